@@ -70,6 +70,22 @@ NA = {
 }
 
 
+FORKED = {"C01", "C03", "C04", "C05", "C06", "C07", "C09", "C10", "C11", "C13", "C16", "C19"}
+GENERIC = {"*": " Process-level faults injected in a fraction of the runs (DESIGN.md 9.10): a fleet of bystander instances of the same classes stepped between "
+                "the calls of the run under test (1 run in 4)."}
+for _p in FORKED:
+    GENERIC[_p] = GENERIC["*"][:-1] + "; snapshot / restore of the detector (copy.deepcopy or pickle round trip at an arbitrary instant or while it reports drift, 1 run in 5)."
+for _p, _extra in {"C03": " Marathon scenario (4300-5200 updates).", "C04": " ph_long / cusum_long scenarios (thousands of observations per epoch, burn_in > 1000); offset / tiny / lattice data regimes.",
+                   "C05": " Marathon scenario (3000-sample epochs, one-pass specification).", "C06": " par_split: the scheduler also runs a statement-split copy of lfr.py (load / compute / store of read-modify-writes on separate lines).",
+                   "C07": " Offset / tiny / lattice data regimes; DataFrame batches with duplicated labels.", "C09": " Offset / tiny / lattice data regimes; integer-typed observations.",
+                   "C10": " Offset / tiny / lattice data regimes; integer-typed reference; big_sampling scenario.", "C11": " Tiny-scale regime; marathon scenario; online_scaling as numpy.bool_ / int.",
+                   "C12": " One constructor parameter of the members retyped (twins plain); ensembles built with and without selectors.", "C13": " Thresholds as float / numpy scalar of equal value.",
+                   "C15": " Read-only views of caller-owned buffers, injector pipelines, MD3 over copy=False frames.", "C16": " Label codecs incl. close-valued floats, number-vs-string pairs, unsigned dtypes; parameter retyping.",
+                   "C17": " Offset / tiny data regimes.", "C18": " Offset / tiny data regimes; parameter retyping.", "C02": " One constructor parameter retyped (fresh twins plain).",
+                   "C19": " Scenario svc (real sklearn SVC + default margin function), in-place refits, integer column labels."}.items():
+    GENERIC[_p] = GENERIC.get(_p, GENERIC["*"]) + _extra
+
+
 def main():
     checks = []
     na = []
@@ -85,7 +101,7 @@ def main():
                 "replay_cmd_template": f"/venv/bin/python /verif/check.py {pid} --replay {{path}}",
                 "engine": "menelaus-dst",
                 "level_claimed": {"category": t["cat"], "text": t["text"], "design_ref": f"DESIGN.md section 3 / {pid}"},
-                "level_note": t["note"],
+                "level_note": t["note"] + GENERIC.get(pid, GENERIC["*"]),
                 "technique": t["tech"],
             })
         else:
